@@ -12,6 +12,7 @@ def plan(tier, seed):
             dict(ch("C16", F, "h_update_rules", t, ["util.update_custom_metadata", "util.ensure_bytes"],
                     env=dict(VERIF_ONE_DICT=1), shape=dict(one_dict=1)), name="C16-h_update_rules[one-dict]"),
             ch("C16", F, "h_write_read_verbatim", 60, ["api.ParquetFile.key_value_metadata", "util.ensure_str"])]
+    jobs.append(ch("C16", F, "h_kv_property", t, ["api.ParquetFile.key_value_metadata", "util.ensure_str"]))
     extra = dict(
         explanation="CrossHair (z3) over the real update_file_custom_metadata on a symbolic file (data length, old and "
                     "new footer length are unbounded symbolic integers, so the footer delta ranges over all integers): "
